@@ -6,6 +6,7 @@ package c13
 import (
 	"encoding/json"
 	"fmt"
+	"github.com/Syuparn/pangaea/object"
 	"strings"
 
 	"panmc/internal/core"
@@ -180,6 +181,16 @@ type tcase struct {
 	Recv  string `json:"recv"`
 	Steps []step `json:"steps"`
 	Acc   int    `json:"acc"`
+	// again family: the chain is written once inside a function and evaluated for each receiver in turn
+	Again []string `json:"again,omitempty"`
+}
+
+func (t tcase) againSrc() string {
+	var rows []string
+	for _, r := range t.Again {
+		rows = append(rows, fmt.Sprintf("[nil.try.{|u| g(%s)}.A, nil.try.{|u| f(%s)}.A]", r, r))
+	}
+	return "f := {|v| v.try" + t.chain() + accessors[t.Acc].Src + "}\ng := {|v| v" + t.chain() + "}\n[" + strings.Join(rows, ", ") + "]"
 }
 
 func (t tcase) chain() string {
@@ -330,6 +341,106 @@ type pair struct {
 	w bool
 }
 
+// ---------------------------------------------------------------- one try chain evaluated again with another receiver
+
+// The wrapped chain and the plain chain are each written once (inside functions f and g) and evaluated for the
+// receivers r1, r2, r1 in turn; every wrapped result must be what the plain outcome for THAT receiver implies.
+func genAgain(emit func(tcase)) {
+	recvs := []string{"5", `"a"`, "[1, 2]", "nil", "oo"}
+	alpha := reducedAlphabetQuick()
+	accs := []int{0, 2, 3, 5} // .val .A .or(99) .err?
+	var chains [][]step
+	for _, s1 := range alpha {
+		if s1.Obj {
+			continue
+		}
+		chains = append(chains, []step{s1})
+		for _, s2 := range alpha {
+			if s2.Obj {
+				continue
+			}
+			chains = append(chains, []step{s1, s2})
+		}
+	}
+	for _, ch := range chains {
+		for _, a := range accs {
+			for i, r1 := range recvs {
+				for j, r2 := range recvs {
+					if i == j {
+						continue
+					}
+					emit(tcase{Steps: ch, Acc: a, Again: []string{r1, r2, r1}})
+				}
+			}
+		}
+	}
+}
+
+func judgeAgain(c *core.Ctx, t tcase, o panrun.Obs) {
+	c.Validated(1)
+	c.Nontrivial(1)
+	if o.Kind == "syntax" {
+		c.HarnessError("again program does not parse: %s: %s", t.againSrc(), o.ErrMsg)
+		return
+	}
+	if o.Kind == "panic" || o.Kind == "discard" {
+		c.Outcome("again-" + o.Kind)
+		return
+	}
+	rows, ok := o.Val.(*object.PanArr)
+	if o.Kind != "value" || !ok || len(rows.Elems) != len(t.Again) {
+		c.HarnessError("again program gave no row per receiver: %s: %s", t.againSrc(), o.Short())
+		return
+	}
+	side := func(v object.PanObject) (isErr bool, val, kind, msg string, good bool) {
+		pr, ok := v.(*object.PanArr)
+		if !ok || len(pr.Elems) != 2 {
+			return false, "", "", "", false
+		}
+		if ew, ok := pr.Elems[1].(*object.PanErrWrapper); ok {
+			return true, "", string(ew.ErrKind), ew.Msg, true
+		}
+		return false, pr.Elems[0].Repr(), "", "", true
+	}
+	for i, row := range rows.Elems {
+		pr, ok := row.(*object.PanArr)
+		if !ok || len(pr.Elems) != 2 {
+			c.HarnessError("again row malformed: %s", row.Repr())
+			return
+		}
+		pErr, pVal, pKind, pMsg, g1 := side(pr.Elems[0])
+		wErr, wVal, wKind, wMsg, g2 := side(pr.Elems[1])
+		if !g1 || !g2 {
+			c.HarnessError("again row malformed: %s", row.Repr())
+			return
+		}
+		wantV, wantK, wantM := accessors[t.Acc].fn(pErr, pVal, pKind, pMsg)
+		good := false
+		if wantK != "" {
+			good = wErr && wKind == wantK && (wantM == "*" || wMsg == wantM)
+		} else {
+			good = !wErr && wVal == wantV
+		}
+		c.Outcome(fmt.Sprintf("again:%v", good))
+		if !good {
+			one := tcase{Recv: t.Again[i], Steps: t.Steps, Acc: t.Acc}
+			// the known proxy classes keep their keys; everything else is a finding of this family
+			pObs, wObs := panrun.Obs{Kind: "value", Repr: pVal}, panrun.Obs{Kind: "value", Repr: wVal, ErrMsg: wMsg}
+			if pErr {
+				pObs = panrun.Obs{Kind: "error", ErrKind: pKind, ErrMsg: pMsg}
+			}
+			key := keyOf(one, "outcome", pObs, wObs)
+			if !strings.HasPrefix(key, "proxy/") {
+				key = "evaluated-again/" + key
+			}
+			c.Violation(core.Violation{Key: key, Case: core.JSON(t), Desc: strings.ReplaceAll(t.againSrc(), "\n", "; "),
+				Expected: fmt.Sprintf("evaluation %d (receiver %s): %s %s %s", i+1, t.Again[i], wantV, wantK, wantM), Observed: pr.Elems[1].Repr() + "  (plain: " + pr.Elems[0].Repr() + ")",
+				Repro: prelude + t.againSrc() + ".p\n"})
+			return
+		}
+	}
+}
+
 func run(c *core.Ctx) {
 	n := 0
 	// every case contributes two thunks (plain, wrapped); plain results are reused inside a batch
@@ -365,12 +476,19 @@ func run(c *core.Ctx) {
 		pending = nil
 	})
 	c.Note("thunks_total", total)
+	tk.Batched(c, 300, prelude, func(emit func(tcase)) { genAgain(emit) }, func(t tcase) string { return t.againSrc() }, func(t tcase, o panrun.Obs) { judgeAgain(c, t, o) })
 }
 
 func replay(c *core.Ctx, raw json.RawMessage) {
 	var t tcase
 	if err := json.Unmarshal(raw, &t); err != nil {
 		c.HarnessError("bad case: %v", err)
+		return
+	}
+	if len(t.Again) > 0 {
+		obs := c.R().Thunks(prelude, []string{t.againSrc()}, "")
+		c.Eval(1)
+		judgeAgain(c, t, obs[0])
 		return
 	}
 	obs := c.R().Thunks(prelude, []string{t.plain(), t.wrapped()}, "")
